@@ -231,6 +231,13 @@ static void reload_config(UNUSED_ARG(int fd), UNUSED_ARG(short event), UNUSED_AR
 {
     log_message(log_core, LOG_INFO, "Re-reading config file due to signal");
     conf_read(config_filename);
+#if defined(IAUTHD_C_VERIF)
+    /* Verification hook: tell the driver that the reload has finished. */
+    if (getenv("IAUTHD_VERIF_MARK")) {
+        fputs("#verif reload\n", stdout);
+        fflush(stdout);
+    }
+#endif
 }
 
 static void main_cleanup(void)
